@@ -123,8 +123,12 @@ Apply(st, ev) ==
 (* is not observable misbehaviour, so only none/empty/live is compared.    *)
 (***************************************************************************)
 OwnCode(r) == IF r.k = "none" THEN -1 ELSE IF r.k = "empty" THEN 0 ELSE 1
+\* ev.listed[s] = entries for object s on the process-wide list of live sandboxes (pushes
+\* minus erases reported from inside the guarded scopes): the registry is exact
 ProjMatches(st, ev) ==
-  "own" \in DOMAIN ev => \A o \in OwnersOf(st) : ev.own[o] = OwnCode(st.own[o])
+  /\ "own" \in DOMAIN ev => \A o \in OwnersOf(st) : ev.own[o] = OwnCode(st.own[o])
+  /\ "listed" \in DOMAIN ev =>
+        \A s \in Sandboxes(st) : ev.listed[s] = (IF st.status[s] = "cr" THEN 1 ELSE 0)
 
 \* Invariants of every Contract state
 CInv(st) ==
